@@ -107,6 +107,40 @@ theorem pos_lt_bound (i : Inst) (h : WF i) {s : State} (hr : Reach envM i s)
   have := Nat.mul_le_mul_right (MT i) h1
   omega
 
+/-- (4b') **Iteration bound of `_move_to_next_machine`, from the instance data.**  The `while` body runs
+`n ≥ 1` times in a step that leaves the row unfinished, each run advances the clock position by one, and
+the position stays below `(D+1)·M·S`: so `n ≤ (D+1)·M·S − pos`, and over a whole episode the body runs
+fewer than `(D+1)·M·S` times in total (`D`, `M`, `S` are instance data; no state-dependent fuel). -/
+theorem move_iterations_le (i : Inst) (h : WF i) {s : State} (hr : Reach envM i s) (a : Nat)
+    (ha : a < i.J + 1) (hm : s.mask a = true) (hd : (stepM i s a).done = false) :
+    ∃ n, 1 ≤ n ∧ moveNext i (apply i s a) = iter i n (apply i s a) ∧
+      pos i (stepM i s a) = pos i s + n ∧ pos i s + n < stepBound i := by
+  have l := live_of_reach i h hr
+  have c1 := core_apply i h s l a ha hm
+  have hd1 : (apply i s a).done = false := by
+    have : (stepM i s a).done = (moveNext i (apply i s a)).done := rfl
+    rw [this, moveNext_done i h _ c1] at hd; exact hd
+  have hre' : Reach envM i (stepM i s a) := by
+    obtain ⟨bs, hb⟩ := hr; exact ⟨bs ++ [a], hb.snoc ha hm⟩
+  have hlt := pos_lt_bound i h hre' hd
+  have hmv : moveNext i (apply i s a) = moveLoop i (moveFuel i (apply i s a)) (apply i s a) := by
+    simp [moveNext, hd1]
+  obtain ⟨n, _, hn1, he⟩ := moveLoop_is_iter i (moveFuel i (apply i s a)) (apply i s a)
+  have hf : moveFuel i (apply i s a) ≥ 1 := by
+    unfold moveFuel; exact Nat.mul_pos (by omega) (MT_pos h)
+  obtain ⟨c, h1, _, h3, _⟩ := iter_closed i (MT_pos h) (apply i s a) c1.sub_lt n
+  have hpos : pos i (stepM i s a) = pos i s + n := by
+    have e0 : pos i (stepM i s a) = pos i (moveNext i (apply i s a)) := rfl
+    rw [e0, hmv, he]
+    unfold pos
+    rw [h3]
+    have e1 : (apply i s a).time = s.time := rfl
+    have e2 : (apply i s a).sub = s.sub := rfl
+    rw [e1] at *; rw [e2] at h1
+    rw [Nat.add_mul, Nat.mul_comm c (MT i)]
+    omega
+  exact ⟨n, hn1 hf, by rw [hmv, he], hpos, by omega⟩
+
 /-- termination measure: remaining clock positions below the bound (0 once finished) -/
 def mu (i : Inst) (s : State) : Nat := if s.done then 0 else stepBound i - pos i s
 
@@ -181,7 +215,7 @@ theorem stale_mask_after_all_done :
     (apply one (step one (reset one) 0) 0).done = false := by decide
 
 /-- Non-vacuity: `WF` holds for `one`, whose one-step episode finishes within the bound. -/
-example : WF one := ⟨by decide, by decide, by decide, fun p hp => hp, fun j m _ _ => by simp [one]⟩
+example : WF one := ⟨by decide, by decide, by decide, fun p hp => hp, fun j m _ _ => small_lt_unset (by simp [one])⟩
 example : RunND envM one (envM.reset one) [0] (stepM one (reset one) 0) :=
   RunND.cons (by decide) (by decide) (by decide) (RunND.nil _)
 example : (stepM one (reset one) 0).done = true ∧ (stepM one (reset one) 0).mask 1 = true := by decide
@@ -189,7 +223,7 @@ example : (stepM one (reset one) 0).done = true ∧ (stepM one (reset one) 0).ma
 /-- Non-vacuity of the bound for zero durations: 2 jobs of duration 0 on one machine take two time units
 (the clock wraps with no machine busy); `D = 2`, bound `(2+1)·1 = 3`. -/
 def zero2 : Inst := ⟨1, 1, 2, fun _ _ => 0, fun p => p, true⟩
-example : WF zero2 := ⟨by decide, by decide, by decide, fun p hp => hp, fun j m _ _ => by simp [zero2]⟩
+example : WF zero2 := ⟨by decide, by decide, by decide, fun p hp => hp, fun j m _ _ => small_lt_unset (by simp [zero2])⟩
 example : stepBound zero2 = 3 := by decide
 example : RunND envM zero2 (envM.reset zero2) [0, 1] (exec envM zero2 (envM.reset zero2) [0, 1]) :=
   RunND.cons (by decide) (by decide) (by decide) (RunND.cons (by decide) (by decide) (by decide) (RunND.nil _))
